@@ -81,6 +81,7 @@ pub fn main(args: &[String], w: &mut dyn Write) {
         if i % 8 == 7 {
             // what RegexRule::make turns an arbitrary expression into before the crate sees it (unmake returns the prepared expression)
             let e = rand_str(&mut r, &['a', 'b', '\\', '{', '}', '[', ']', '<', '>', '1', '2', ',', '(', ')', '|', '.', '*', '+', '?', '^', '-', '#', '_', ' '], 10);
+            let e = if r.chance(1, 8) { r.pick(&["a<<<<3>>>>", "<<<<x>>>>b", "x<<<<1,2>>>>", "\\{3}", "a{1{2}", "\\\\{2}", "<<<<>>>>", "a{2}<<<<3>>>>{x}"]).to_string() } else { e };
             if e.ends_with(' ') { continue; }
             let res = match std::panic::catch_unwind(std::panic::AssertUnwindSafe(|| mk.parse(&format!("{} (regex)", e)).map(|x| x.unmake()))) {
                 Err(_) => "panic".to_string(), Ok(Err(_)) => "err".into(), Ok(Ok((_, b, _, _))) => format!("x{}", hex(&b)) };
